@@ -154,12 +154,19 @@ namespace Pistache::Http::Mime
 
         StreamCursor::Token subToken(cursor);
 
+        // A known name only matches when it is the whole token: "json-seq" or
+        // "plainfoo" are extension subtypes, not "json" / "plain" followed by garbage
+        auto atTokenEnd = [&]() {
+            return cursor.eof() || cursor.current() == ';' || cursor.current() == '+' || cursor.current() == ' ';
+        };
+
         if (match_raw("vnd.", 4, cursor))
         {
             sub = Subtype::Vendor;
         }
         else
         {
+            StreamCursor::Revert revertSub(cursor);
             do
             {
 #define SUB_TYPE(val, s)                                                     \
@@ -172,6 +179,13 @@ namespace Pistache::Http::Mime
 #undef SUB_TYPE
                 sub = Subtype::Ext;
             } while (false);
+
+            if (sub != Subtype::Ext && !atTokenEnd())
+            {
+                revertSub.revert();
+                sub = Subtype::Ext;
+            }
+            revertSub.ignore();
         }
 
         if (sub == Subtype::Ext || sub == Subtype::Vendor)
@@ -196,6 +210,7 @@ namespace Pistache::Http::Mime
 
             StreamCursor::Token suffixToken(cursor);
 
+            StreamCursor::Revert revertSuffix(cursor);
             do
             {
 #define SUFFIX(val, s, _)                                                    \
@@ -209,6 +224,13 @@ namespace Pistache::Http::Mime
                 suffix = Suffix::Ext;
             } while (false);
 
+            if (suffix != Suffix::Ext && !atTokenEnd())
+            {
+                revertSuffix.revert();
+                suffix = Suffix::Ext;
+            }
+            revertSuffix.ignore();
+
             if (suffix == Suffix::Ext)
             {
                 (void)match_until({ ';', '+' }, cursor);
@@ -218,6 +240,18 @@ namespace Pistache::Http::Mime
 
             suffix_ = suffix;
         }
+
+        // "q" introduces the quality value only when it is the whole parameter
+        // name: "quality=1" or "qs=0.5" are ordinary parameters
+        auto isQualityParameter = [&]() {
+            StreamCursor::Revert revertQ(cursor);
+            if (match_literal('q', cursor) && (cursor.eof() || cursor.current() == '='))
+            {
+                revertQ.ignore();
+                return true;
+            }
+            return false;
+        };
 
         // Parse parameters
         while (!cursor.eof())
@@ -231,7 +265,7 @@ namespace Pistache::Http::Mime
                 cursor.advance(1);
             }
 
-            else if (match_literal('q', cursor))
+            else if (isQualityParameter())
             {
 
                 if (cursor.eof())
